@@ -84,6 +84,16 @@ fn sys_x(In(x): In<u32>, world: &mut World, mut local: Local<u32>, q: &mut Query
     body(2, x, &mut local, added, &mut c)
 }
 
+/// A spawned system that despawns its own entity (through its commands) during the call: the call still ran it once
+/// and must return its output; afterwards the id is a missing system.
+fn sys_suicide(In(x): In<u32>, mut local: Local<u32>, q: Query<(), Added<Marker>>, mut c: Commands) -> u32
+{
+    let own = IDS.with(|ids| ids.borrow()[3]);
+    let r = body(3, x, &mut local, q.iter().count() as u32, &mut c);
+    c.entity(own.entity()).despawn();
+    r
+}
+
 fn call(world: &mut World, t: Target, x: u32)
 {
     let result: Option<u32> = match t
@@ -101,7 +111,7 @@ fn call(world: &mut World, t: Target, x: u32)
         }
         Target::SpawnedMissing =>
         {
-            let id = IDS.with(|ids| ids.borrow()[3]);
+            let id = IDS.with(|ids| ids.borrow()[4]);
             spawned_syscall::<In<u32>, u32>(world, id, x).ok()
         }
     };
@@ -119,11 +129,13 @@ pub struct Model17
     /// Change-detection cursor per key: how many markers existed at the point up to which the key's system has looked
     /// (ordinary systems: the start of their previous run; exclusive systems: the return of their previous run).
     pub seen: BTreeMap<Target, u32>,
+    /// The self-despawning spawned system has run (its entity is gone).
+    pub suicide_done: bool,
 }
 
 fn func_of(t: Target) -> u8
 {
-    match t { Target::Sys(f) => f.min(2), Target::Named(_, f) => f.min(2), Target::Spawned(i) => i.min(2), Target::SpawnedMissing => 0 }
+    match t { Target::Sys(f) => f.min(2), Target::Named(_, f) => f.min(2), Target::Spawned(i) => i.min(3), Target::SpawnedMissing => 0 }
 }
 
 impl Model17
@@ -141,6 +153,11 @@ impl Model17
                 return;
             }
             Target::Spawned(_) if active.contains(&t) =>
+            {
+                log.push(Rec::Ret{ target: t, result: None });
+                return;
+            }
+            Target::Spawned(3) if self.suicide_done =>
             {
                 log.push(Rec::Ret{ target: t, result: None });
                 return;
@@ -164,6 +181,7 @@ impl Model17
             (*c, markers - seen)
         };
         log.push(Rec::Run{ func: func_of(t), local, input: x, added });
+        if t == Target::Spawned(3) { self.suicide_done = true; }
         // the run's command is applied before the call returns, and makes the nested call
         self.applied += 1;
         log.push(Rec::Applied);
@@ -195,9 +213,10 @@ pub fn run17(hist: &[Op17]) -> StepResult<Key17>
     let id0 = spawn_system(&mut world, sys_f);
     let id1 = spawn_system(&mut world, sys_g);
     let id2 = spawn_system(&mut world, sys_x);
+    let id3 = spawn_system(&mut world, sys_suicide);
     let dead = world.spawn_empty().id();
     world.despawn(dead);
-    IDS.with(|ids| *ids.borrow_mut() = vec![id0, id1, id2, SysId::new(dead)]);
+    IDS.with(|ids| *ids.borrow_mut() = vec![id0, id1, id2, id3, SysId::new(dead)]);
     let mut model = Model17::default();
     let mut violations = Vec::new();
     let mut stop = false;
@@ -263,7 +282,7 @@ pub fn targets() -> Vec<Target>
 {
     vec![
         Target::Sys(0), Target::Sys(1), Target::Sys(2), Target::Named(0, 0), Target::Named(1, 0), Target::Named(0, 1),
-        Target::Named(0, 2), Target::Spawned(0), Target::Spawned(1), Target::Spawned(2), Target::SpawnedMissing,
+        Target::Named(0, 2), Target::Spawned(0), Target::Spawned(1), Target::Spawned(2), Target::Spawned(3), Target::SpawnedMissing,
     ]
 }
 
